@@ -9,6 +9,8 @@ import SfntV.Proofs.FontRoundTrip
 import SfntV.Props.C12
 import SfntV.Proofs.NamesTable
 import SfntV.Props.C11
+import SfntV.Props.C09b
+import SfntV.Proofs.NamesPost
 
 namespace SfntV.FontFile
 open SfntV SfntV.Font
@@ -360,5 +362,26 @@ theorem name_table (n : NameRec)
 theorem glyf_table (gs : Glyf.Glyphs) (h : SfntV.Props.C11.WFGlyphs gs) :
     ∃ e, Glyf.encode gs = .ok e ∧ Glyf.decode (e.fmt : Int) e.loca e.glyf = .ok gs :=
   SfntV.Props.C11.C11_roundtrip gs h
+
+/-! ## stage 2: cmap table and post table with glyph names -/
+
+/-- cmap (C09): the table of subtables survives `Table.Encode` / `cmap.Decode` -/
+theorem cmap_table (t : CmapTable.Table) (hv : ∀ kd ∈ t, CmapTable.ValidSub kd.1 kd.2) (hn : t.length < 65536)
+    (hsz : (CmapTable.encode t).length < 4294967296) :
+    CmapTable.decode (CmapTable.encode t) = .ok t :=
+  SfntV.C09b.C09_table_roundtrip t hv hn hsz
+
+/-- guards of C14's post round trip on the glyph names -/
+def NamesOK (names : Option (List Names.GName)) : Prop :=
+  ∀ ns, names = some ns →
+    ns.length ≤ 65535 ∧ (∀ n ∈ ns, n.length ≤ 255 ∧ ∀ c ∈ n, c < 256) ∧
+    Names.postTable.length + Names.customCount Names.postTable ns ≤ 65536
+
+/-- post (C14, all versions): header and glyph names as `post.Read` returns them; the header is
+`codecPost` of the record -/
+theorem post_names_table (p : PostRec) (names : Option (List Names.GName))
+    (hp : isInt16 p.underlinePosition) (ht : isInt16 p.underlineThickness) (hn : NamesOK names) :
+    decodePostFull (natsToBytes (Names.postEncode (postHdrN p) names)) = .ok (codecPost p, names) := by
+  sorry
 
 end SfntV.FontFile
